@@ -68,6 +68,7 @@ package conversions
 //@ func NewConversionSupply
 //@   props C16 C14
 //@   ensures @wf result != nil && fresh(result) && wfSet(result) && result.Bank == bank && len(result.ConversionRequests) == 0
+//@   ensures @fresh_parts fresh(result.ConversionRequests) && fresh(result.totalRequested)
 //@   ensures @empty forall k string :: !dom(result.ConversionRequests)[k]
 //@   modifies nothing
 //@
@@ -77,6 +78,7 @@ package conversions
 //@   ensures @wf wfSet(s)
 //@   ensures @added err == nil ==> !old(dom(s.ConversionRequests))[txid] && dom(s.ConversionRequests) == upd(old(dom(s.ConversionRequests)), txid, true) && vals(s.ConversionRequests) == upd(old(vals(s.ConversionRequests)), txid, pegAmt)
 //@   ensures @unchanged_on_error err != nil ==> dom(s.ConversionRequests) == old(dom(s.ConversionRequests)) && vals(s.ConversionRequests) == old(vals(s.ConversionRequests))
+//@   ensures @error_is_not_a_reject_code !isRejectErr(err)
 //@   ensures @same_fields s.Bank == old(s.Bank) && s.ConversionRequests == old(s.ConversionRequests) && s.totalRequested == old(s.totalRequested)
 //@   modifies contents(s.ConversionRequests), s.totalRequested.V
 //@
